@@ -613,6 +613,12 @@ func doRecv(s *stream.Stream, op ROp) (r RRes) {
 			return RRes{Err: err.Error()}
 		}
 		r.OK, r.Data = true, d
+	case "secret":
+		d, err := s.GetSecret(bg)
+		if err != nil {
+			return RRes{Err: err.Error()}
+		}
+		r.OK, r.Data = true, []byte(d)
 	case "start":
 		if err := s.StartMessageRead(bg); err != nil {
 			return RRes{Err: err.Error()}
@@ -661,6 +667,8 @@ func ropTerm(o ROp) string {
 		return "RFrameWE"
 	case "frame":
 		return "RFrame"
+	case "secret":
+		return "RSecret"
 	case "start":
 		return "RStart"
 	case "read":
